@@ -43,7 +43,9 @@ func pick(c *Ctx, label string, base, n int) int {
 	return v
 }
 
-var hashStrings = []string{"", "a", "ab", "b"}
+// adjacent variable-length fields: boundary shifts, and strings that contain what an encoding
+// might use as a delimiter or terminator (NUL, comma, a length-like prefix byte)
+var hashStrings = []string{"", "a", "ab", "b", "a\x00b", "b\x00b", "a,b", "\x01a"}
 var hashTimes = []int64{0, 1700000000, 1700000001}
 
 type tripBase struct {
@@ -68,8 +70,8 @@ func strPtrAlt(i int) *string { // 0 nil, 1.. hashStrings
 
 func genTrip(c *Ctx, pfx string, b tripBase) *gtfs.Trip {
 	t := &gtfs.Trip{}
-	t.ID.ID = hashStrings[pick(c, pfx+"id", b.id, 4)]
-	t.ID.RouteID = hashStrings[pick(c, pfx+"route", b.route, 4)]
+	t.ID.ID = hashStrings[pick(c, pfx+"id", b.id, len(hashStrings))]
+	t.ID.RouteID = hashStrings[pick(c, pfx+"route", b.route, len(hashStrings))]
 	t.ID.DirectionID = gtfs.DirectionID(pick(c, pfx+"dir", b.dir, 3))
 	switch pick(c, pfx+"startTime", b.startTime, 5) {
 	case 1:
@@ -106,8 +108,8 @@ func genTrip(c *Ctx, pfx string, b tripBase) *gtfs.Trip {
 			v := uint32(5 + i + 65536)
 			u.StopSequence = &v
 		}
-		u.StopID = strPtrAlt(pick(c, p+"stop", (b.stop+i)%5, 5))
-		u.NyctTrack = strPtrAlt(pick(c, p+"track", (b.track+i)%5, 5))
+		u.StopID = strPtrAlt(pick(c, p+"stop", (b.stop+i)%5, len(hashStrings)+1))
+		u.NyctTrack = strPtrAlt(pick(c, p+"track", (b.track+i)%5, len(hashStrings)+1))
 		u.ScheduleRelationship = gtfsrt.TripUpdate_StopTimeUpdate_ScheduleRelationship(pick(c, p+"sr", (b.usr+i)%3, 3))
 		ev := func(name string, present int) *gtfs.StopTimeEvent {
 			if pick(c, p+name, present, 2) == 0 {
@@ -418,7 +420,7 @@ func c13Vehicle(withTrip bool) Harness {
 		v := &gtfs.Vehicle{}
 		switch pick(c, "v.id", 1, 3) {
 		case 1:
-			v.ID = &gtfs.VehicleID{ID: hashStrings[pick(c, "v.id.id", 1, 4)], Label: hashStrings[pick(c, "v.id.label", 2, 4)], LicensePlate: hashStrings[pick(c, "v.id.plate", 0, 4)]}
+			v.ID = &gtfs.VehicleID{ID: hashStrings[pick(c, "v.id.id", 1, len(hashStrings))], Label: hashStrings[pick(c, "v.id.label", 2, len(hashStrings))], LicensePlate: hashStrings[pick(c, "v.id.plate", 0, len(hashStrings))]}
 		case 2:
 			v.ID = &gtfs.VehicleID{}
 		}
@@ -479,7 +481,7 @@ func c13Vehicle(withTrip bool) Harness {
 			return nil
 		}
 		v.CurrentStopSequence = u32("v.css", 2)
-		v.StopID = strPtrAlt(pick(c, "v.stop", 2, 5))
+		v.StopID = strPtrAlt(pick(c, "v.stop", 2, len(hashStrings)+1))
 		if s := pick(c, "v.status", 0, 4); s > 0 {
 			x := gtfs.CurrentStatus(s - 1)
 			v.CurrentStatus = &x
@@ -544,7 +546,7 @@ func init() {
 	register(&Check{
 		ID:    "C13",
 		Level: "model_checking",
-		Rule: "all trips/vehicles within k deviations (quick k<=2, thorough k<=5 trips / k<=4 vehicles) of the bases {empty, full, mixed} x field alphabets (adjacent strings over {'',a,ab,b}, nil/zero/non-zero optionals, numeric twins that agree in their low 8/16/32 bits or as float32, 0-3 updates with index-dependent defaults); " +
+		Rule: "all trips/vehicles within k deviations (quick k<=2, thorough k<=5 trips / k<=4 vehicles) of the bases {empty, full, mixed} x field alphabets (adjacent strings over {'',a,ab,b, a NUL b, b NUL b, 'a,b', 0x01 a}, nil/zero/non-zero optionals, numeric twins that agree in their low 8/16/32 bits or as float32, 0-3 updates with index-dependent defaults); " +
 			"non-trivial = distinct data keys with an id or at least one update; oracle = global bijection hash-input-stream <-> data key plus per-value invariance under copy/zone/flag/back-reference",
 		Assumptions: []string{"the hash input is the concatenation of the byte slices written to the hash.Hash", "instants have whole-second resolution (as produced by the parser)"},
 		Scenarios: func(tier string) []*Scenario {
